@@ -123,6 +123,16 @@ theorem name_sound (hS : Sound R env S σ m) {i : Nat} {x : String} {v : Val} {T
       simp only [hfree, if_true] at ht
       exact hb T ht
 
+theorem get_sound (hS : Sound R env S σ m) {x : String} {v : Val} {T : TySet} (hx : x ∉ S) (hσ : σ x = some v)
+    (hm : m.get x = some T) : InSet v T := by
+  obtain ⟨h1, h2⟩ := hS x v hx hσ
+  cases hfree : env.isFree x with
+  | false =>
+    obtain ⟨T', hm', hv⟩ := h1 hfree
+    rw [hm] at hm'
+    exact (Option.some.inj hm') ▸ hv
+  | true => exact (h2 hfree).1 T hm
+
 theorem noTaint_sub {e e' : Expr} (h : NoTaint S e) (hsub : ∀ x, x ∈ readsE e' → x ∈ readsE e) : NoTaint S e' :=
   fun x hx => h x (hsub x hx)
 
@@ -153,33 +163,46 @@ theorem tyE_sound (hT : Truthful R sem env) (hW : ∀ x, x ∈ W → x ∈ S) (h
         cases k <;> cases c <;> simp [tyE] at ht <;> simp [isOpaque] at h
   | .call i f args kws, T, v, hn, ht, hev => by
       cases hev with
-      | callLocal hb hfW hσ hv =>
-        rename_i fn ρ j
-        have hfS : fn ∉ S := hn fn (by simp [readsE])
-        have hbc : env.bound.contains fn = true := by simpa using hb
-        simp only [tyE, hbc, if_true] at ht
-        cases hm : m.get fn with
+      | callLocal hq hqr hb hfW hσ hv =>
+        rename_i q ρ
+        have hfS : q ∉ S := hn q (by simp [readsE, hqr])
+        have hbc : env.bound.contains q = true := by simpa using hb
+        simp only [tyE, hq, hbc, if_true] at ht
+        cases hm : m.get q with
         | none => rw [hm] at ht; simp at ht
         | some ft =>
           rw [hm] at ht
           by_cases hall : allFn ft = true
           · simp only [hall, if_true, Option.some.injEq] at ht
             subst ht
-            have hin : InSet (.fn ρ) ft := name_sound (i := 0) hS hfS hσ (by simp [tyE, hm])
+            have hin : InSet (.fn ρ) ft := get_sound hS hfS hσ hm
             exact retTypes_sound hall hin hv
           · simp [hall] at ht
-      | callHavoc hfW =>
-        rename_i fn j
-        exact absurd (hW fn hfW) (hn fn (by simp [readsE]))
+      | callHavoc hq hqr hfW =>
+        rename_i q
+        exact absurd (hW q hfW) (hn q (by simp [readsE, hqr]))
       | callExt hb hargs hkws hcall =>
-        rename_i fn avs kvs j
-        have hbc : env.bound.contains fn = false := by simpa using hb
-        simp only [tyE, hbc] at ht
-        refine hT.call i _ _ _ T _ _ v ht ?_ ?_ hcall
+        have ht' : R.call i (tyE R env m f) (tyOpts R env m args) (tyOptsKw R env m kws) = some T := by
+          simp only [tyE] at ht
+          cases hq : qnOf? f with
+          | none => simpa [hq] using ht
+          | some q =>
+            have hbc : q ∉ env.bound := hb q hq
+            simpa [hq, hbc] using ht
+        refine hT.call i _ _ _ T _ _ v ht' ?_ ?_ hcall
         · exact tyOpts_sound hT hW hS args _ (fun x hx => hn x (by simp [readsE, hx])) hargs
         · exact tyOptsKw_sound hT hW hS kws _ (fun x hx => hn x (by simp [readsE, hx])) hkws
-      | opaq h =>
-        cases f <;> simp [tyE] at ht <;> simp [isOpaque] at h
+      | opaq h => simp [isOpaque] at h
+  | .attr i e nm c, T, v, hn, ht, hev => by
+      cases hev with
+      | attr he hr =>
+        simp only [tyE] at ht
+        cases h1 : tyE R env m e with
+        | none => simp [h1] at ht
+        | some A =>
+          simp only [h1] at ht
+          exact hT.attr i A T _ v ht (tyE_sound hT hW hS e A _ (fun x hx => hn x (by simp [readsE, hx])) h1 he) hr
+      | opaq h => simp [isOpaque] at h
   | .subscript i e s c, T, v, hn, ht, hev => by
       cases hev with
       | subscript he hs hr =>
@@ -235,7 +258,6 @@ theorem tyE_sound (hT : Truthful R sem env) (hW : ∀ x, x ∈ W → x ∈ S) (h
           simp only [h1] at ht
           exact hT.unop i A T _ v ht (tyE_sound hT hW hS e A _ (fun x hx => hn x (by simp [readsE, hx])) h1 he) hr
       | opaq h => simp [isOpaque] at h
-  | .attr .., _, _, _, ht, _ => by simp [tyE] at ht
   | .keyword .., _, _, _, ht, _ => by simp [tyE] at ht
   | .boolop .., _, _, _, ht, _ => by simp [tyE] at ht
   | .ifexp .., _, _, _, ht, _ => by simp [tyE] at ht
@@ -849,16 +871,29 @@ theorem annE_justified : ∀ (e : Expr) (p : Nat × TySet), p ∈ annE R env tin
       rcases h with h | h
       · exact annE_justified c p h
       · exact annEs_justified vars p h
-  | .attr .., _, h => by simp [annE] at h
+  | .attr i v a c, p, h => by
+      simp only [annE, List.mem_append] at h
+      rcases h with h | h
+      · exact annE_justified v p h
+      · exact selfAnn_justified _ p h
   | .lambda .., _, h => by simp [annE] at h
   | .starred i v c, p, h => annE_justified v p (by simpa [annE] using h)
   | .namedexpr .., _, h => by simp [annE] at h
-  | .comp .., _, h => by simp [annE] at h
-  | .comprehension .., _, h => by simp [annE] at h
+  | .comp i k es gs, p, h => by
+      simp only [annE, List.mem_append] at h
+      rcases h with h | h
+      · exact annEs_justified es p h
+      · exact annEs_justified gs p h
+  | .comprehension i t it ifs a, p, h => by
+      simp only [annE, List.mem_append] at h
+      rcases h with (h | h) | h
+      · exact annE_justified t p h
+      · exact annE_justified it p h
+      · exact annEs_justified ifs p h
   | .arguments .., _, h => by simp [annE] at h
   | .arg .., _, h => by simp [annE] at h
   | .noneMarker, _, h => by simp [annE] at h
-  | .other .., _, h => by simp [annE] at h
+  | .other i k a kids, p, h => annEs_justified kids p (by simpa [annE] using h)
 theorem annTuple_justified : ∀ (es : List Expr) (p : Nat × TySet), p ∈ annTuple R env tin es → Justified R env tin p
   | [], _, h => by simp [annTuple] at h
   | e :: es, p, h => by
